@@ -2880,7 +2880,7 @@ def workflow_api_witness(ctx):
     return 9, diffs, None
 
 
-def eval_workflow_map(ctx, name=None, inputs=("a", ("b", "c"), {"x": "d"})):
+def eval_workflow_map(ctx, name=None, inputs=("a.txt", ("b", "c"), {"x": "d"})):
     """Workflow.map with a recording template function; returns (names of the targets created, template call arguments) or an error string."""
     idx = ctx.index
     wcls = idx.cls("gwf.workflow:Workflow")
@@ -2927,7 +2927,7 @@ def workflow_map_witness(ctx):
         if names != want or registered != sorted(want):
             diffs.append(f"Workflow.map over three items with {label} creates targets {names} (registered: {registered}); expected one target per item named {want} - "
                          "distinct, deterministic, index-bearing names")
-        want_calls = [(("a",), {"flag": 1}), (("b", "c"), {"flag": 1}), ((), {"x": "d", "flag": 1})]
+        want_calls = [(("a.txt",), {"flag": 1}), (("b", "c"), {"flag": 1}), ((), {"x": "d", "flag": 1})]
         if calls != want_calls:
             diffs.append(f"Workflow.map calls the template with {calls}; expected scalar -> one argument, sequence -> positional arguments, mapping -> keyword arguments, plus `extra`")
     # a naming function that gives two items of ONE map call the same name: names must be unique, so this is an error (never a silent replacement)
